@@ -631,7 +631,7 @@ def FTree.toRTree (ft : FTree) : Option RTree := do
   let t ← ft.buildF ft.fuel r
   let fl := (RTree.flatten t).nodes
   if fl.length == ft.nodes.length
-      && ft.nodes.all (fun e => fl.lookup e.1 == some e.2)
+      && ft.nodes.all (fun e => decide (fl.lookup e.1 = some e.2))
       && (RTree.ids t).all (fun x => (RTree.ids t).count x == 1) then some t else none
 
 end Ptn.C17
